@@ -172,8 +172,15 @@ pub fn minus(vm: &mut Vm) -> Result<VCell, Error> {
         }
     }
 
-    if let VCell::Number(n) = vm.heap.get(vm.stack.pop()?) {
-        result = n - result;
+    match vm.heap.get(vm.stack.pop()?) {
+        VCell::Number(n) => result = n - result,
+        vcell => {
+            return Err(InvalidArgs(
+                "-".to_string(),
+                "number".to_string(),
+                vm.heap.get_as_cell(&vcell).to_string(),
+            ));
+        }
     }
 
     if argc == 1 {
